@@ -178,6 +178,26 @@ R4 = {
  "C18": " Also (round 4): a name is derived only for groups that are written and unnamed; -d honoured first (COND define rules); the real file server creates (truncates) and writes.",
  "C19": " Also (round 4): LIM2 inspects operator-trait arithmetic on references to primitive integers.",
 }
+R5 = {
+ "C02": " Also (round 5): parameters are always declared to the static analysis with their own argument's answer; arguments are analysed without the rule's parameters in scope; `$`/`pc` are never answered from the symbol table.",
+ "C03": " Also (round 5): unchecked arithmetic in the formatters (LIM2), the read of args[1] in the inclusion functions is behind a `contents not empty` test, output names are derived after all inputs are known and every named group reaches the write.",
+ "C04": " Also (round 5): no test of the length of a type name decides whether it is an integer type.",
+ "C07": " Also (round 5): a blank of the pattern accepts a Whitespace or a Comment token, nothing else.",
+ "C08": " Also (round 5): as C02; a function name outside the builtin table is never statically known.",
+ "C09": " Also (round 5): the SK variant rules; listed finding: the asm block's inner pass limit is the user's budget.",
+ "C11": " Also (round 5): the printed output is the formatted bytes unchanged; the real file server creates and writes.",
+ "C12": " Also (round 5): listing digits read only bits inside the row's span; leaf expression spans are made of their own tokens; listed finding: parenthesised operands lose `(`.",
+ "C13": " Also (round 5): `expected ...` errors at the cursor; field errors at the field; listed findings: a missing operand is reported on a later line (6 parsers), arguments of a substituted asm line are located in the unsubstituted text, parenthesised operands lose `(`.",
+ "C14": " Also (round 5): stored rule productions and #fn bodies are evaluated under a context naming their own file.",
+ "C15": " Also (round 5): the walker never sets the context back to global while walking; listed finding: a label declared in a selected #if arm does not enclose what follows the block.",
+ "C16": " Also (round 5): listed finding shared with C15 (conditional scope).",
+ "C17": " Also (round 5): the block's context differs from the call site's only in position and pass flags; listed finding: labels in asm blocks are not padded to #labelalign.",
+ "C18": " Also (round 5): layout units of the Intel HEX address unit; output names derived after all inputs are known; printed bytes unchanged.",
+ "C19": " Also (round 5): taint flows through Option/Result combinator closures.",
+}
+for _k, _v in R5.items():
+    if _k in P and "text" in P[_k] and _v not in P[_k]["text"]:
+        P[_k]["text"] += _v
 for _k, _v in R4.items():
     if _k in P and "text" in P[_k] and _v not in P[_k]["text"]:
         P[_k]["text"] += _v
